@@ -787,14 +787,23 @@ class InterpBuiltins:
 
     def bi_no_effect(self, args, kw, line):
         """no_effect() : the ghost effect log is empty;  no_effect('send_start_process', ...) : none of these"""
+        self._effects_known()
         if not args:
             return len(self.effects) == len(self.effects_base)
         return not any(nme in args for nme, _ in self.effects[len(self.effects_base):])
 
+    def _effects_known(self):
+        tag = getattr(self, 'effects_unknown', None)
+        if tag:
+            raise Unsupported(f'effect query after {tag}, whose iterations emit effects: the effect log of this path does '
+                              f'not contain them (state the per-iteration effects in loop<K>_iter)')
+
     def bi_count_effects(self, args, kw, line):
+        self._effects_known()
         return sum(1 for nme, _ in self.effects[len(self.effects_base):] if nme in args)
 
     def bi_effect_at(self, args, kw, line):
+        self._effects_known()
         nme, k = args[0], args[1] if len(args) > 1 else 0
         sel = [a for n2, a in self.effects[len(self.effects_base):] if n2 == nme]
         return tuple(sel[k]) if k < len(sel) else None
